@@ -270,7 +270,7 @@ Section Gen.
     do _ <- match name with Some n => guard (negb (match assoc (cx_fields c) n with Some _ => true | None => false end)) | None => Ok tt end;
     do _ <- check_length_attr c len;
     do t <- gt tn len;
-    do _ <- match name, text with None, Some lit => check_unnamed_literal t lit | _, _ => Ok tt end;
+    do _ <- match text with Some lit => check_unnamed_literal t lit | None => Ok tt end;   (* hardcoded literals are type-checked, named or not *)
     do lm <- elab_len c len;
     let '(l, maxlen) := lm in
     let f := mkField name (ti_ty t) l pad opt (negb (cx_ropt c)) text maxlen in
